@@ -35,6 +35,8 @@ impl R64 {
     #[verifier::external_body] pub fn ceil(self) -> (r: R64) ensures r.ok@ == self.ok@, r@ == r_ceil(self@) as real { unimplemented!() }
     // f64::is_normal: neither zero, infinite, subnormal nor NaN (subnormals are outside the real model)
     #[verifier::external_body] pub fn is_normal(self) -> (r: bool) ensures r == (self.ok@ && self@ != 0real) { unimplemented!() }
+    // f64::is_finite: neither infinite nor NaN (zero and subnormals ARE finite)
+    #[verifier::external_body] pub fn is_finite(self) -> (r: bool) ensures r == self.ok@ { unimplemented!() }
     // `x as usize` on a float: saturating, NaN -> 0
     #[verifier::external_body] pub fn to_usize(x: R64) -> (r: usize)
         ensures !x.ok@ ==> true, x.ok@ && x@ <= 0real ==> r == 0,
